@@ -18,3 +18,16 @@ LEVELS["C19"] = {
  "text": "Bounded symbolic verification of the real LogCache code against a model backend: an inductive step from an arbitrary invariant-satisfying (cache, backend) pair plus a bounded sequence from NewLogCache; every read through the cache must equal the direct backend read, every write must be forwarded unchanged; capacities 1..3(4), window of 3 indexes at an arbitrary 64-bit base, backend failures injected.",
  "note": "Trusted: go/ssa, gosym, z3, the model backend (harness/m_stores.go). Assumes atomic backend failures and a window base that is a multiple of 12. Outside: capacities > 4, partial batch failure, caller mutating stored *Log.",
 }
+_STEP_NOTE = "Trusted: go/ssa, gosym, z3, model stores/transport (harness/m_*.go), stubs (logger, metrics, time). Pre-states are arbitrary states satisfying the stated representation invariant; the composition of step lemmas into the cluster-level statement is the written argument of DESIGN 3.4, not machine-checked. "
+LEVELS["C01"] = {"ref": "4.1", "text": "Bounded symbolic verification of requestVote and appendEntries term handling from arbitrary invariant-satisfying states with arbitrary messages and failing stable-store calls: a vote is granted only after (term, candidate) is durable, never to a second candidate of a term, higher terms force follower state, stale terms change nothing.",
+ "note": _STEP_NOTE + "Outside: goroutine preemption, transport pairing."}
+LEVELS["C06"] = {"ref": "4.6", "text": "Bounded symbolic verification of the vote/pre-vote/term handlers with every StableStore call failing independently: one vote per term, only up-to-date voting members, monotone terms, and preservation of the vote-record invariant that a half-written record breaks.",
+ "note": _STEP_NOTE + "Crash points are modelled as store-call failures at the same positions (a crash after the first write leaves the same durable image as a failed second write)."}
+LEVELS["C14"] = {"ref": "4.14", "text": "Bounded symbolic verification that requestPreVote changes no volatile or durable state for any state/request and grants only to up-to-date voters without a known leader.",
+ "note": _STEP_NOTE}
+LEVELS["C03"] = {"ref": "4.3", "text": "Bounded symbolic verification of the up-to-date vote check (first grants and re-grants) and of 'no deletion at or below the commit/snapshot/applied index' in appendEntries for arbitrary logs in a window.",
+ "note": _STEP_NOTE + "LM/LC/NI hypotheses are assumed for the appendEntries step."}
+LEVELS["C04"] = {"ref": "4.4", "text": "Bounded symbolic verification of appendEntries over arbitrary follower and sender logs (window W=2/3 at a symbolic 64-bit base, all prev positions, duplicates, batches ending inside the follower log): success implies equality through the last entry sent, truncation only from the first conflict, log invariant and log matching preserved.",
+ "note": _STEP_NOTE}
+LEVELS["C02"] = {"ref": "4.2", "text": "Bounded symbolic verification of the follower's FSM feed in appendEntries: committed Command entries in index order, once, identical to the agreed entries, bounded by min(leaderCommit,lastIndex).",
+ "note": _STEP_NOTE + "NI (no stale entries below the leader's commit index beyond the batch) is assumed; it is the catch-up session's invariant."}
